@@ -17,7 +17,7 @@ for c in m.get('caught_by',[]):
 if not ids: ids=[m['property_broken']]
 print(' '.join(ids))")
   git -C /repo diff --quiet || { echo "repo dirty"; exit 2; }
-  git -C /repo apply $d/patch.diff || { echo "$name: patch does not apply"; continue; }
+  git -C /repo apply /verif/${d}patch.diff || { echo "$name: patch does not apply"; continue; }
   res=""
   for prop in $checks; do
     s=$(date +%s)
